@@ -499,6 +499,8 @@ def run_check(pid, tier="quick", replay=None):
         if unexplained_corr:
             i0 = next(iter(unexplained_corr))
             payload["case"] = shrink_failure(check, mod, cases[i0], "corr")
+            _, c2, _ = evaluate(check, mod, [payload["case"]])
+            payload["case_diff"] = c2.get(0, "(shrunk case no longer disagrees; see correspondence_disagreements)")
         path = write_replay(pid, payload)
         violations.append(("tie", "; ".join(broken) or "correspondence disagreement", path))
 
